@@ -297,6 +297,23 @@ func c14Rules(p *core.Prog, r *core.Run) {
 	}
 	r.Check("C14.N9", "targets:resolve-site", nRT == 1, p.Pos(rs.Pos()), "one target-resolution site in Resolve (found %d)", nRT)
 
+	// a target whose addresses cannot be found stays without addresses: its
+	// failure never fails the lookup of the name (the other records, and the
+	// name's own addresses, are still wanted)
+	nTErr := 0
+	for _, ret := range core.Returns(rs) {
+		if len(ret.Results) == 0 || lastResultNil(ret) {
+			continue
+		}
+		e := p.X(retErr(ret))
+		fromTarget := e.Any(func(x *core.Expr) bool { return x.Op == "call" && x.Fn != nil && sameFn(x.Fn, rt) })
+		if fromTarget {
+			nTErr++
+			r.Check("C14.N9", fmt.Sprintf("Resolve:target-error-fatal#%d", nTErr), false, p.InstrPos(ret), "Resolve fails with the error of a service-mode target's address lookup: %s", short(e))
+		}
+	}
+	r.Check("C14.N9", "Resolve:target-errors-not-fatal", nTErr == 0, p.Pos(rs.Pos()), "no way out of Resolve carries the error of a target's address lookup (%d do)", nTErr)
+
 	// --- N8
 	for _, fn := range []*ssa.Function{rs, rt} {
 		var a, aaaa ssa.Value
@@ -767,6 +784,16 @@ func c14QueryName(p *core.Prog, r *core.Run, rs *ssa.Function, rule string) {
 					}
 				}
 			}
+		}
+	}
+	// the URI form is recognised by net/url.Parse: its siblings differ on inputs
+	// the property names (ParseRequestURI refuses a fragment, so a URI with one
+	// would be taken for a host name, scheme and port ignored)
+	nParse := 0
+	for _, s := range callSites(p, []*ssa.Function{rs}, `net/url\.[A-Za-z]*Parse[A-Za-z]*|\(\*net/url\.URL\)\.Parse`) {
+		if len(s.X.Args) >= 1 && s.X.Args[len(s.X.Args)-1].Op == "param" {
+			nParse++
+			r.Check(rule, fmt.Sprintf("uri-form:parse#%d", nParse), s.X.Name == "net/url.Parse", p.InstrPos(s.Instr), "the name is tried as a URI with %s (net/url.Parse accepts every URI form, with or without path, query and fragment)", s.X.Name)
 		}
 	}
 	r.Check(rule, "scheme:http-folds-to-https", folded, p.Pos(rs.Pos()), "scheme http (case-insensitively) is treated as https")
